@@ -12,15 +12,24 @@ pub struct Session<'a> {
     pub stats: Stats,
     pub alive: bool,
     last_x: f32,
+    /// logged values are multiplied by 2^-scale (exact), so that very large / very small signals fit the
+    /// Q24 image; all predicates of the specification are invariant under this scaling
+    pub scale: i32,
     pub settings: HashSet<(u32, i64)>,
 }
 
 impl<'a> Session<'a> {
     pub fn new(out: &'a mut Out) -> Self {
-        Session { gp: None, fs: 0, out, stats: Stats::new(), alive: false, last_x: 0.0, settings: HashSet::new() }
+        Session { gp: None, fs: 0, out, stats: Stats::new(), alive: false, last_x: 0.0, scale: 0, settings: HashSet::new() }
     }
     fn panic_event(&mut self, during: &str, msg: &str) {
-        self.out.line(&format!("{{\"op\":\"panic\",\"during\":{},\"msg\":{}}}", jstr(during), jstr(msg)));
+        let wh = if during.starts_with("process") { "process" } else { "set_time" };
+        self.out.line(&format!(
+            "{{\"op\":\"panic\",\"where\":\"{}\",\"during\":{},\"msg\":{}}}",
+            wh,
+            jstr(during),
+            jstr(msg)
+        ));
         self.stats.add("panics", 1);
         self.alive = false;
         self.gp = None;
@@ -28,7 +37,7 @@ impl<'a> Session<'a> {
     pub fn start(&mut self, fs: u32) {
         self.fs = fs;
         self.last_x = 0.0;
-        self.out.line(&format!("{{\"op\":\"new\",\"fs\":{}}}", fs));
+        self.out.line(&format!("{{\"op\":\"new\",\"fs\":{},\"scale\":{}}}", fs, self.scale));
         self.stats.add("runs", 1);
         match guarded(|| GlideProcessor::new(fs as f32)) {
             Ok(g) => {
@@ -60,7 +69,14 @@ impl<'a> Session<'a> {
         let g = self.gp.as_mut().unwrap();
         match guarded(|| g.process(x)) {
             Ok(y) => {
-                self.out.line(&format!("{{\"op\":\"p\",\"xk\":{},\"xq\":{},\"yq\":{},\"yk\":{}}}", key(x), q24(x), q24(y), key(y)));
+                let k = (2.0f32).powi(-self.scale);
+                self.out.line(&format!(
+                    "{{\"op\":\"p\",\"xk\":{},\"xq\":{},\"yq\":{},\"yk\":{}}}",
+                    key(x),
+                    q24(x * k),
+                    q24(y * k),
+                    key(y)
+                ));
                 self.stats.add("samples", 1);
                 self.last_x = x;
                 y
@@ -92,10 +108,11 @@ impl<'a> Session<'a> {
             (mn, mx, last, nan)
         }) {
             Ok((mn, mx, last, nan)) => {
-                let (a, b, c) = if nan { (NAN_KEY, NAN_KEY, NAN_KEY) } else { (q24(mn), q24(mx), q24(last)) };
+                let k = (2.0f32).powi(-self.scale);
+                let (a, b, c) = if nan { (NAN_KEY, NAN_KEY, NAN_KEY) } else { (q24(mn * k), q24(mx * k), q24(last * k)) };
                 self.out.line(&format!(
                     "{{\"op\":\"ps\",\"n\":{},\"xk\":{},\"xq\":{},\"yq\":{},\"ymin\":{},\"ymax\":{}}}",
-                    n, key(x), q24(x), c, a, b
+                    n, key(x), q24(x * k), c, a, b
                 ));
                 self.stats.add("samples", n as i64);
             }
@@ -233,6 +250,44 @@ pub fn drive_sched(s: &mut Session, rng: &mut Rng, runs: usize) {
     }
 }
 
+/// a held input whose glide has stalled (increment below half an ulp at a slow setting), then the time
+/// is switched to the fastest setting: the output must still settle on the input
+pub fn drive_stall(s: &mut Session, rng: &mut Rng, runs: usize) {
+    for r in 0..runs {
+        let fs = *rng.pick(&[8000u32, 44100, 48000]);
+        s.scale = 0;
+        s.start(fs);
+        s.set_time(0.0);
+        let x0 = *rng.pick(&[4.0f32, 2.0, -6.0, 1.0]);
+        s.hold(x0, 12, 12);
+        s.set_time(10.0);
+        let dx = (1 + rng.below(6)) as f32 / 1024.0 * if r % 2 == 0 { 1.0 } else { -1.0 };
+        let n = 40 + rng.below(40);
+        s.hold(x0 + dx, n, 100);
+        let tf = *rng.pick(&[0.0f32, 1.0 / 48000.0]);
+        s.set_time(tf);
+        s.hold(x0 + dx, 40, 40);
+    }
+}
+
+/// very large and very small signals (logged through an exact power-of-two scaling)
+pub fn drive_huge(s: &mut Session, rng: &mut Rng, runs: usize) {
+    for r in 0..runs {
+        let fs = *rng.pick(&RATES);
+        s.scale = if r % 2 == 0 { 123 } else { -100 };
+        s.start(fs);
+        let unit = (2.0f32).powi(s.scale);
+        for _ in 0..6 {
+            let t = *rng.pick(&[0.0f32, 0.001, 0.05, 0.5]);
+            s.set_time(t);
+            let x = (rng.range(-29, 29) as f32) * unit;
+            let n = 4 + rng.below(40);
+            s.hold(x, n, 60);
+        }
+    }
+    s.scale = 0;
+}
+
 /// chains of nearby set_time calls (the 0.05 s dead band), then a step that reveals which time is
 /// in effect
 pub fn drive_deadband(s: &mut Session, rng: &mut Rng, runs: usize) {
@@ -313,7 +368,10 @@ pub fn rerun(lines: &[serde_json::Value], out: &mut Out) {
     let mut s = Session::new(out);
     for e in lines {
         match e["op"].as_str().unwrap_or("") {
-            "new" => s.start(e["fs"].as_u64().unwrap() as u32),
+            "new" => {
+                s.scale = e["scale"].as_i64().unwrap_or(0) as i32;
+                s.start(e["fs"].as_u64().unwrap() as u32)
+            }
             "st" => s.set_time(unkey(e["tk"].as_i64().unwrap())),
             "p" => {
                 s.process(unkey(e["xk"].as_i64().unwrap()));
@@ -329,7 +387,11 @@ pub fn record(driver: &str, seed: u64, thorough: bool, out: &mut Out) -> Stats {
     let mut s = Session::new(out);
     match driver {
         "steps" => drive_steps(&mut s, &mut rng, if thorough { 1500 } else { 60 }),
-        "sched" => drive_sched(&mut s, &mut rng, if thorough { 3000 } else { 300 }),
+        "sched" => {
+            drive_sched(&mut s, &mut rng, if thorough { 3000 } else { 300 });
+            drive_stall(&mut s, &mut rng, if thorough { 300 } else { 30 });
+            drive_huge(&mut s, &mut rng, if thorough { 200 } else { 20 });
+        }
         "deadband" => drive_deadband(&mut s, &mut rng, if thorough { 400 } else { 40 }),
         "extreme" => drive_extreme(&mut s, &mut rng, if thorough { 200 } else { 30 }),
         "rates" => drive_rates(&mut s, &mut rng, thorough),
